@@ -438,8 +438,24 @@ def key_of(case):
     return hashlib.sha1(json.dumps(case, sort_keys=True, default=str).encode()).hexdigest()
 
 
+def preload():
+    """Import the library (and the heavy third-party modules it pulls in) once, in the parent
+    process and before any alarm is armed: an alarm firing in the middle of a first import
+    leaves half-initialised modules behind, and forked workers inherit what is loaded here."""
+    import importlib
+    for m in ('numpy', 'bitarray', 'fcapy', 'fcapy.context', 'fcapy.lattice', 'fcapy.poset',
+              'fcapy.mvcontext', 'fcapy.algorithms.concept_construction',
+              'fcapy.algorithms.lattice_construction', 'fcapy.lattice.concept_measures',
+              'fcapy.visualizer', 'fcapy.ml.decision_lattice'):
+        try:
+            importlib.import_module(m)
+        except Exception:  # a broken import is reported by the cases themselves
+            pass
+
+
 def run_property(prop, tier='quick', seed=0, replay=None):
     t0 = time.time()
+    preload()
     pid = prop.ID
     lines = []          # VIOLATION / KNOWN-FINDING lines
     violations = 0
